@@ -168,6 +168,19 @@ def main():
                             full = [t for t in toast.generate_tiles(n, bottom_only=True, coordsys=cs) if (t.pos.n, t.pos.x, t.pos.y) == pos]
                             if len(full) != 1 or not corners_equal(full[0].corners, t1.corners) or full[0].increasing != t1.increasing:
                                 bad = "full enumeration and create_single_tile disagree"
+                        if n <= 6 and n >= 1 and not bad and mode == "so":
+                            # the routes through a `Pyramid` object: a pyramid filtered down to the position's ancestors, and a
+                            # sub-pyramid whose apex is the position's parent — the tiles they hand out are the same tiles
+                            from toasty.pyramid import Pyramid
+                            for rname, pyr in (("filtered Pyramid", Pyramid.new_toast_filtered(n, anc, coordsys=cs)),
+                                               ("sub-pyramid", Pyramid.new_toast(n, coordsys=cs).subpyramid(Pos(n - 1, x >> 1, y >> 1)))):
+                                gotp = [t for (p_, t) in pyr._generator() if (p_.n, p_.x, p_.y) == pos]
+                                if len(gotp) != 1 or gotp[0] is None:
+                                    bad = f"the {rname} yields the position {len(gotp)} times"
+                                elif not corners_equal(gotp[0].corners, t1.corners) or gotp[0].increasing != t1.increasing:
+                                    bad = f"the {rname} hands out corners {show(gotp[0].corners)} for the tile whose corners are {show(t1.corners)}"
+                                if bad:
+                                    break
                     if bad:
                         h.violation(f"route:{mode}", f"{nm} system, position {pos} ({mode}): {bad}", input={"pos": pos, "system": nm, "mode": mode}, observed=bad)
                     h.case(("float", mode, nm, pos) if n >= 2 else None)
